@@ -220,6 +220,24 @@ def rule_derived_attrs(ctx: Ctx, rule: str, which: set[str] | None = None) -> No
                 bad.append(f'self.case_sensitive = {v!r}')
         emit('case_sensitive', not bad and len(ps) >= 1, 'self.case_sensitive = _wcparse.get_case(self.flags)', 'as expected' if not bad else bad[0][:160],
              "glob('a', flags=IGNORECASE) must use the same case rule as the compiled patterns")
+    if which is None or 'root_dir' in which:
+        ps = rows(repo, ('root_dir',))
+        bad = []
+        for p in ps:
+            focus(p)
+            given = p.decisions.get('root_dir is not None')
+            isb = [v for k, v in p.decisions.items() if k.startswith('isinstance(') and k.endswith(', bytes)') and 'fspath' not in k]
+            v = p.attrs['root_dir']
+            if given is True:
+                okv = v == Opaque('os.fspath(root_dir)')
+            elif given is False:
+                okv = len(isb) == 1 and v == (b'.' if isb[0] else '.')
+            else:
+                okv = False
+            if not okv:
+                bad.append(f'root_dir given={given} bytes={isb}: self.root_dir = {_tag(v)[:60]}')
+        emit('root_dir', not bad and len(ps) >= 3, 'self.root_dir = os.fspath(root_dir) unchanged, or the current-directory name of the pattern type', 'as expected' if not bad else bad[0],
+             "glob('*', root_dir='/') must list the file-system root: the root is used exactly as given")
     # ---- negate_flags
     if which is None or 'negate_flags' in which:
         D, NC, NDD = w['DOTMATCH'], w['_NO_GLOBSTAR_CAPTURE'], w['NODOTDIR']
